@@ -127,6 +127,22 @@ func resolveGen(c *core.Ctx) func(yield func(resolveCase) bool) {
 		if !c.Thorough() {
 			return
 		}
+		// three independently qualified fields
+		for _, pop := range pops3 {
+			if len(pop) < 2 {
+				continue
+			}
+			for _, q1 := range qualArgs {
+				for _, q2 := range qualArgs {
+					for _, q3 := range qualArgs[:4] {
+						fs := []qField{{Kind: "single", Qual: q1}, {Kind: "single", Qual: q2, Opt: true}, {Kind: "slice", Qual: q3}}
+						if !yield(resolveCase{Pop: pop, Fields: fs, Family: "b3"}) {
+							return
+						}
+					}
+				}
+			}
+		}
 		for _, pop := range qPops(4) {
 			if len(pop) < 4 {
 				continue
